@@ -123,34 +123,34 @@ def opDepth (cfg : Cfg) (preNames : Names) (op : String) (linked : Bool) (root :
     some (call (findAxisDepth cfg { q0 with name := some 99 } allNodes))
   | "descendants" => some (descGenDepth l)
   | "next_elements" | "previous_elements" | "parents" => some (call (loop0 allNodes))
-  | "extract_inner" | "extract_mid" | "extract_top" | "extract_last_child" => some (extractDepth l)
-  | "replace_last_child" => some (replaceWithDepth parent l [s])
-  | "decompose_top" | "decompose_mid" => some (decomposeDepth l)
-  | "clear_top" => some (clearDepth l false)
-  | "clear_decompose" => some (clearDepth l true)
-  | "unwrap_mid" | "unwrap_top" => some (unwrapDepth parent l)
-  | "wrap_mid" => some (wrapDepth parent l fresh)
-  | "replace_with_mid" => some (replaceWithDepth parent l [fresh, s])
-  | "insert_before_inner" | "insert_after_inner" | "insert_after_mid" => some (insertBesideDepth parent l [s, fresh])
-  | "append_inner" | "append_top" | "move_subtree" => some (appendDepth l fresh false)
-  | "insert0_top" | "insert0_root" => some (insertDepth l [fresh, s] false)
-  | "extend_mid" => some (extendDepth l [s, fresh, s])
-  | "index" | "tw_index" | "tw_index_last" => some (indexDepth (kidsOf l.node))
+  | "extract_inner" | "extract_mid" | "extract_top" | "extract_last_child" => some (extractDepth idTest l)
+  | "replace_last_child" => some (replaceWithDepth idTest parent l [s])
+  | "decompose_top" | "decompose_mid" => some (decomposeDepth idTest l)
+  | "clear_top" => some (clearDepth idTest l false)
+  | "clear_decompose" => some (clearDepth idTest l true)
+  | "unwrap_mid" | "unwrap_top" => some (unwrapDepth idTest parent l)
+  | "wrap_mid" => some (wrapDepth idTest parent l fresh)
+  | "replace_with_mid" => some (replaceWithDepth idTest parent l [fresh, s])
+  | "insert_before_inner" | "insert_after_inner" | "insert_after_mid" => some (insertBesideDepth idTest parent l [s, fresh])
+  | "append_inner" | "append_top" | "move_subtree" => some (appendDepth idTest l fresh false)
+  | "insert0_top" | "insert0_root" => some (insertDepth idTest l [fresh, s] false)
+  | "extend_mid" => some (extendDepth idTest l [s, fresh, s])
+  | "index" | "tw_index" | "tw_index_last" => some (indexDepth idTest (kidsOf l.node) l.node)
   -- an argument that is a near copy of the receiver is, for the accounting, just another element: identity tests only
   | "nc_replace_with" | "nc_replace_with_exact" | "nc_replace_with_top" | "nc_replace_with_parentcopy"
-  | "tw_replace_with" | "tw_replace_with_sibling" => some (replaceWithDepth parent l [l])
-  | "nc_replace_with_two" => some (replaceWithDepth parent l [l, l])
+  | "tw_replace_with" | "tw_replace_with_sibling" => some (replaceWithDepth idTest parent l [l])
+  | "nc_replace_with_two" => some (replaceWithDepth idTest parent l [l, l])
   | "nc_insert_before" | "nc_insert_before_exact" | "nc_insert_after" | "tw_insert_before" | "tw_insert_after" =>
-    some (insertBesideDepth parent l [l, l])
-  | "nc_append_to_parent" | "nc_append_into_self" | "nc_append_child_of_copy" | "tw_move_first_to_end" => some (appendDepth l l false)
-  | "nc_insert0_parent" | "nc_insert_two" | "tw_insert_existing" => some (insertDepth parent [l, l] false)
-  | "nc_extend" => some (extendDepth parent [l, l])
-  | "nc_wrap_in_copy" | "tw_wrap" => some (wrapDepth parent l l)
-  | "nc_extract_before_parentcopy" | "tw_extract" | "tw_extract_last" => some (extractDepth l)
-  | "tw_unwrap" => some (unwrapDepth parent l)
-  | "tw_decompose" => some (decomposeDepth l)
-  | "tw_clear" => some (clearDepth l false)
-  | "tw_string_setter" => some (stringSetDepth l)
+    some (insertBesideDepth idTest parent l [l, l])
+  | "nc_append_to_parent" | "nc_append_into_self" | "nc_append_child_of_copy" | "tw_move_first_to_end" => some (appendDepth idTest l l false)
+  | "nc_insert0_parent" | "nc_insert_two" | "tw_insert_existing" => some (insertDepth idTest parent [l, l] false)
+  | "nc_extend" => some (extendDepth idTest parent [l, l])
+  | "nc_wrap_in_copy" | "tw_wrap" => some (wrapDepth idTest parent l l)
+  | "nc_extract_before_parentcopy" | "tw_extract" | "tw_extract_last" => some (extractDepth idTest l)
+  | "tw_unwrap" => some (unwrapDepth idTest parent l)
+  | "tw_decompose" => some (decomposeDepth idTest l)
+  | "tw_clear" => some (clearDepth idTest l false)
+  | "tw_string_setter" => some (stringSetDepth idTest l)
   | "tw_smooth" => some (smoothDepth cfg l)
   | "tw_decode" => some (decodeDepth cfg l)
   | "tw_decode_parent" => some (prettifyDepth cfg l)
@@ -158,8 +158,8 @@ def opDepth (cfg : Cfg) (preNames : Names) (op : String) (linked : Bool) (root :
   | "tw_find_all" => some (findAllDepth cfg { q0 with name := some midName } l)
   | "tw_find_next_siblings" => some (findAxisDepth cfg { q0 with name := some midName } allNodes)
   | "tw_copy_parent" => some (copyDepth cfg false l)
-  | "smooth" | "doc_smooth" => some (max (appendDepth l s false) (smoothDepth cfg l))
-  | "string_setter_mid" | "string_setter_inner" => some (stringSetDepth l)
+  | "smooth" | "doc_smooth" => some (max (appendDepth idTest l s false) (smoothDepth cfg l))
+  | "string_setter_mid" | "string_setter_inner" => some (stringSetDepth idTest l)
   | "len_bool_iter" | "contains_str" | "contains_child" => some (call (loop0 (kidsOf l.node)))
   -- positive control (inherently recursive, outside the property): `tag == copy.copy(tag)`
   | "eq_copy" => some (max (copyDepth cfg false l) (call (eqDepth l.node l.node)))
@@ -220,8 +220,20 @@ def handleState (variant linked haskids mostrecent prel scl : String) (toks : Li
   let d := soupDict ps (haskids == "1") (linked == "1") (mostrecent == "1")
   showDict d ++ " | " ++ showDict (getstateImpl cfg d)
 
+def optNat (s : String) : Option Nat := if s == "-" then none else s.toNat?
+
+/-- `reads <name|-> <other: 0 none, 1 matches, 2 does not match> <attrs|-> <str> <event>*`: the positions (document
+    order below the document object) of the tags whose `.string` a `find_all` with these criteria reads -/
+def handleReads (name other attrs str : String) (toks : List String) : String :=
+  match buildTree true toks with
+  | none => "bad-events"
+  | some rootNode =>
+    let q : Query := ⟨optNat name, other != "0", other == "1", optNat attrs, str == "1"⟩
+    showL (stringReads q rootNode)
+
 def handle : List String → String
   | "events" :: recv :: toks => handleEvents recv toks
+  | "reads" :: name :: other :: attrs :: str :: toks => handleReads name other attrs str toks
   | "state" :: variant :: linked :: haskids :: mostrecent :: prel :: scl :: toks => handleState variant linked haskids mostrecent prel scl toks
   | "depth" :: variant :: rootkx :: midname :: prel :: scl :: nops :: rest =>
     let cfg := if variant == "old" then unrepaired else repaired
